@@ -221,7 +221,8 @@ func c15Classify(kind string, o int, base, got, want []tokRec) string {
 // so that a decoded value could be mistaken for another token class
 var c15Lexemes = map[string][]string{
 	"generic":    {"a", "1", " ", "'<='", "'#'", "' '", "\"1\"", "''", "#", "<=", "\n", "\U0001F600", "-", "'"},
-	"expression": {"a", "1", " ", "'<='", "'/*'", "'*/'", "\"a b\"", "''", "/*", "*/", "<=", "\U0001F600", "'"},
+	// (the last two: one inner text of 24 bytes holding both kinds of doubled quotes, once in each quote character)
+	"expression": {"a", "1", " ", "'<='", "'/*'", "'*/'", "\"a b\"", "''", "/*", "*/", "<=", "\U0001F600", "'", "'He said \"\"hi\"\" it''s ok'", "\"He said \"\"hi\"\" it''s ok\""},
 	"csv":        {"a", ",", "\",\"", "\"\"\"\"", "\"\r\n\"", "\r\n", "\n", " ", "\"", "я"},
 	"mustache":   {"a", "{{", "}}", "{{{", "}}}", "'}}'", "'{{'", "'}}}'", "\"}}\"", "' '", " ", "#", "x", "'"},
 }
